@@ -20,7 +20,7 @@ use crate::{
     sql::binder::bounds::BoundExpression,
     storage::tuple::{Row, Tuple, TupleBuilder, TupleReader},
     tree::bplustree::SearchResult,
-    types::{DataType, ObjectId, RowId, UInt64},
+    types::{DataType, ObjectId, RowId, TransactionId, UInt64},
 };
 
 /// Result of an insert operation.
@@ -152,6 +152,18 @@ impl DmlExecutor {
         columns: &[usize],
         values: &Row,
     ) -> RuntimeResult<InsertResult> {
+        self.insert_with_row_id(table_id, columns, values, None)
+    }
+
+    /// Inserts a row under a given row id instead of a freshly allocated one. Recovery uses it: the operations
+    /// logged after an INSERT (updates, deletes) name the row by the id it had when the log was written.
+    pub(crate) fn insert_with_row_id(
+        &mut self,
+        table_id: ObjectId,
+        columns: &[usize],
+        values: &Row,
+        logged_row_id: Option<RowId>,
+    ) -> RuntimeResult<InsertResult> {
         let tree_builder = self.ctx.tree_builder();
         let snapshot = self.ctx.snapshot().clone();
         let tid = self.ctx.tid();
@@ -162,8 +174,17 @@ impl DmlExecutor {
             .catalog()
             .get_relation(table_id, &tree_builder, &snapshot)?;
 
-        let row_id = relation.next_row_id();
-        relation.increment_row_id();
+        let row_id = match logged_row_id {
+            Some(id) => {
+                relation.reserve_row_id(id);
+                UInt64(id)
+            }
+            None => {
+                let id = relation.next_row_id();
+                relation.increment_row_id();
+                id
+            }
+        };
 
         let schema = relation.schema().clone();
         let root = relation.root();
@@ -339,6 +360,47 @@ impl DmlExecutor {
         )?;
 
         Ok(UpdateResult { updated: true })
+    }
+
+    /// Recovery: takes back the DELETE that the unfinished transaction `loser` logged for `row_id`.
+    ///
+    /// If the row is stored and still carries `loser`'s delete mark (its page reached the disk) the mark is
+    /// cleared; if the row is stored without that mark there is nothing to take back - in particular a delete
+    /// by a transaction that committed later must stay; only a row that is not stored at all is re-inserted.
+    pub(crate) fn undo_delete(
+        &mut self,
+        table_id: ObjectId,
+        row_id: RowId,
+        loser: TransactionId,
+        columns: &[usize],
+        old_row: &Row,
+    ) -> RuntimeResult<()> {
+        let key = UInt64(row_id).serialize()?;
+        let snapshot = self.ctx.snapshot();
+        let tree_builder = self.ctx.tree_builder();
+        let relation = self
+            .ctx
+            .catalog()
+            .get_relation(table_id, &tree_builder, &snapshot)?;
+        let schema = relation.schema().clone();
+        let root = relation.root();
+
+        let mut btree = self.ctx.build_tree_mut(root);
+        match btree.search(&key, &schema)? {
+            SearchResult::Found(position) => {
+                let mut existing = btree.get_tuple_at_unchecked(position, &schema)?;
+                if existing.xmax() == Some(loser) {
+                    existing.clear_delete();
+                    btree.update(root, existing, &schema)?;
+                }
+                Ok(())
+            }
+            SearchResult::NotFound(_) => {
+                drop(btree);
+                self.insert_with_row_id(table_id, columns, old_row, Some(row_id))?;
+                Ok(())
+            }
+        }
     }
 
     /// Deletes a row identified by its row ID.
